@@ -431,7 +431,7 @@ pub fn run(cx: &Cx) -> Report {
     rep.absorb(par_proptest(
         cx,
         "random",
-        cx.tier.pick(150_000, 5_000_000),
+        cx.tier.pick(600_000, 8_000_000),
         sk_strategy,
         move || mk_env(k.clone()),
         |env, sk, st| check(env, sk, st),
